@@ -29,7 +29,7 @@ def dev_plain(nphys):
 
 def build_circuit(nphys, instrs, nclbits):
     from qiskit import QuantumCircuit
-    qc = QuantumCircuit(nphys, max(1, nclbits))
+    qc = QuantumCircuit(nphys, max(1, nclbits), name="circ")   # every circuit carries the same name: a name is not an identity
     for name, qs, extra in instrs:
         if name == "rz": qc.rz(extra, qs[0])
         elif name == "sx": qc.sx(qs[0])
@@ -128,13 +128,24 @@ def run_spy(cls_name, labels, instrs_with_meas, nphys, dev, psi0=None, shots=1, 
     """returns (gate-set call log, result dict, statevector of the (single) shot)"""
     from quantum_gates._simulation.simulator import MrAndersonSimulator
     n = len(labels)
-    spy = gates if gates is not None else Spy()
+    # ONE simulator object per (circuit class, gate set) serves every run of this process, and every circuit has the same name and
+    # often the same length: a run is a function of its arguments, never of what the simulator object has seen before
+    key = (cls_name, "spy" if gates is None else id(gates))
+    if key not in _SIMS:
+        spy = gates if gates is not None else Spy()
+        _SIMS[key] = (MrAndersonSimulator(gates=spy, CircuitClass=capturing_class(cls_name)), spy)
+    sim, spy = _SIMS[key]
+    if hasattr(spy, "log"):
+        spy.log = []
     qc = build_circuit(nphys, instrs_with_meas, sum(1 for i in instrs_with_meas if i[0] == "measure"))
     if psi0 is None:
         psi0 = np.zeros(2 ** n); psi0[0] = 1
     del _CAPTURED[:]
-    res = MrAndersonSimulator(gates=spy, CircuitClass=capturing_class(cls_name)).run(t_qiskit_circ=qc, qubits_layout=list(labels), psi0=psi0, shots=shots, device_param=dev, nqubit=n)
+    res = sim.run(t_qiskit_circ=qc, qubits_layout=list(labels), psi0=psi0, shots=shots, device_param=dev, nqubit=n)
     return (spy.log if hasattr(spy, "log") else None), res, (_CAPTURED[0] if _CAPTURED else None)
+
+
+_SIMS = {}
 
 
 # ------------------------------------------------------------------ model prediction from the regenerated traces
